@@ -4,32 +4,57 @@ Mechanism (breezy/bzr/pack_repo.py): _diff_pack_names / _save_pack_names (three-
 merge of pack-names under the names lock), reload_pack_names /
 _syncronize_pack_names_from_disk_nodes (memory resynchronisation), _restart_autopack /
 _restart_pack_operations with RetryAutopack / RetryPackOperations (retry on vanished
-packs), _execute_pack_operations / _obsolete_packs (obsolete strictly after the save),
-_clear_obsolete_packs(preserve).
+packs), AggregateIndex / _DirectPackAccess reload_func (a reader's reload on a missing
+pack), _execute_pack_operations / _obsolete_packs (obsolete strictly after the save),
+_clear_obsolete_packs(preserve) and the final _clear_obsolete_packs() of
+pack(clean_obsolete_packs=True).
 
 T2: two or three real Repository objects are opened on the same directory in this
-    process, one thread each, each running a short program (fetch k revisions of its
-    own history = a write group | pack() | read everything).  The phase boundaries
-    reload_pack_names, GCPack.finish, _save_pack_names and _obsolete_packs block on a
-    baton: exactly one thread runs at a time and the harness decides who runs next, so
-    the real code executes exactly the schedule under test.  Every phase the real code
-    performs is logged as an action of the Lean model (reload | finish revs | repack
-    packs | save clear | obsolete) and after every action pack-names, the listings of
-    packs/ indices/ obsolete_packs/ and every process' in-memory _names and
-    _packs_at_load are compared with the model state (`exec`).  ALL schedules of
-    several 2-actor program pairs are enumerated (stateless depth-first search over
-    the baton choices, `exhaustive`); 3-actor programs are sampled.
-Oracle (independent of the model): no operation may fail; a reader must see every
-    revision whose write group had committed before the reader started and nothing
-    that was never committed, with every text readable (reload-and-retry inside the
-    real code); at the end of every schedule a fresh Repository.open must list exactly
-    the initial revisions plus those of every completed fetch, all trees and texts
-    readable and equal to the source of truth, check() clean, every listed pack's
-    files present.
+    process, one thread each, each running a short program (fetch k revisions = a
+    write group | pack() | pack(clean_obsolete_packs=True) | read everything).  The
+    phase boundaries — every read of pack-names that is not protected by the names
+    lock (ensure_loaded / reload_pack_names), GCPack.finish, the acquisition of the
+    names lock in _save_pack_names, _obsolete_packs and the final
+    _clear_obsolete_packs — block on a baton: exactly one
+    thread runs at a time and the harness decides who runs next, so the real code
+    executes exactly the schedule under test.  Cases marked `fine` have additional
+    gates that change no state but let the others run: before a packer reads its
+    sources (after the plan), after a reader's lock and between its listing and its
+    reads, at the start of a write group — so that a stale plan / a stale reader
+    really meets packs that were obsoleted meanwhile (RetryPackOperations,
+    RetryAutopack, reload on a missing pack; counted as retry:* / reload:* in the
+    evidence).  Every phase the real code performs is logged as an action of the Lean
+    model (reload | finish revs | repack packs | save clear | obsolete | clearAll)
+    and compared with the model (`execX`): after every action pack-names, the listings
+    of packs/ indices/ obsolete_packs/ and every process' in-memory _names and
+    _packs_at_load; for every pack written the revisions its revision index really
+    lists (for a packer: must be the union of its sources); at the end the revisions
+    a fresh open lists against the model's visible set.  Pack names are content
+    hashes: when two processes write byte-identical packs (cases with `sources`: both
+    fetch the same revisions; two packers combining the same packs) the model is told
+    the reused name (`finishAs` / `repackAs`) — these schedules are compared like all
+    others.  ALL schedules of several 2-actor program pairs are enumerated (stateless
+    depth-first search over the baton choices, `exhaustive`), one of them with the
+    fine gates; the other programs are sampled by seed (enumerated up to a limit in
+    the thorough tier).  corpus/C05 holds minimised failing schedules, run first.
+Oracle (independent of the model): no operation may fail; no livelock (a schedule
+    needing more than MAX_DECISIONS phases); a reader must see every revision whose
+    write group had committed before the reader started and nothing that was never
+    committed, with every text readable (reload-and-retry inside the real code); at
+    the end of every schedule a fresh Repository.open must list exactly the initial
+    revisions plus those of every completed fetch, all trees and texts readable and
+    equal to the source of truth, check() clean, every listed pack's files present.
+A thread that does not reach its next gate within the wall-clock limit, or a crashed
+worker, is an infrastructure failure (exit 2), never a verdict.
 
-Excluded input of the model, still run under the oracle: two processes writing byte-identical packs
-(two packers combining the same packs: same content hash = same pack name); counted as
-`excluded:same-pack-name-written-twice`.
+Finding made with this check (family `same-pack-name-relisted-while-obsoleted`,
+theorems same_name_relisted_witness / same_name_obsoleted_before_save_witness,
+corpus/C05): two processes that fetch the SAME revisions write packs with the same
+content-hash name X.  When one of them (or a third) lists X, repacks it and obsoletes
+it while the other has finished X but saves later (or saves between the packer's
+save and its _obsolete_packs), pack-names ends up listing X whose files are in
+obsolete_packs/: the repository cannot be opened any more (NoSuchFile, reload does
+not help).  Every other violation keeps family None.
 
 Mutants this was built against (scratch worktrees):
  A  _diff_pack_names: disk_nodes = set(current_nodes) (plain overwrite, no merge)       -> oracle: a concurrent commit is lost (schedule [0,1,1,0,0,0,1,1] of fetch||fetch)
@@ -39,10 +64,16 @@ Mutants this was built against (scratch worktrees):
  E  _restart_autopack/_restart_pack_operations: retry signal dropped (reload; raise)     -> oracle: autopack fails when another process obsoleted its sources
  F  _syncronize_pack_names_from_disk_nodes: removed packs kept in memory                 -> T2 + oracle (autopack retry sees "nothing changed" and fails)
  G  _clear_obsolete_packs: `preserve` ignored                                            -> T2 only (listing of obsolete_packs/; not observable by readers)
+ H  _restart_pack_operations only: `raise` instead of RetryPackOperations                -> oracle: pack() of a stale plan fails (needs the `plan` gate)
+ I  AggregateIndex built without reload_func (readers never reload)                      -> oracle: a reader that listed before a pack+obsolete fails with NoSuchFile (needs the `read` gates)
+ J  GCCHKPacker._copy_revision_texts copies only the first source's revisions           -> T2 (revisions of the pack written) + oracle (committed revisions no longer listed)
+ L  reload_pack_names always answers "changed"                                           -> harmless on healthy directories; a read of a directory that lists a missing pack is reported as livelock
+ S  (seeded, /var/tmp/seed-C05b) _save_pack_names reads pack-names and merges BEFORE lock_names -> oracle: a commit saved between the read and the lock is lost (fetch||fetch [0,1,1,1,1,0,0,0,0,1]); needs the gate AT lock_names
  harmless: set comprehensions / set algebra in _diff_pack_names, renamed locals -> clean.
 """
 import os
 import shutil
+import sys
 import threading
 
 from vlib import env
@@ -50,18 +81,24 @@ from checks import c04
 
 THEOREMS = [
     "save_is_threeway_merge", "save_synchronises", "committed_data_kept", "listed_data_kept",
-    "listed_pack_findable", "reload_finds_data", "mem_run_deletes", "clear_preserves_just_obsoleted",
-    "save_skips_already_obsolete", "overwrite_loses_witness",
+    "listed_pack_findable", "reload_finds_data", "committed_readable", "mem_run_deletes",
+    "clear_preserves_just_obsoleted", "save_skips_already_obsolete", "overwrite_loses_witness",
+    "fine_committed_readable", "fine_listed_pack_findable", "fine_reload_finds_data", "exec_refines_fine",
+    "execX_base", "same_name_relisted_witness", "same_name_obsoleted_before_save_witness",
 ]
-RULE = ("case = (initial collection: chunk sizes, programs of 2 or 3 actors out of fetch k | pack | read, one complete "
-        "schedule = the sequence of baton choices); all schedules of the 2-actor program pairs are enumerated, 3-actor "
-        "schedules are sampled; non-trivial = at least two actors performed a phase between another actor's load and "
-        "save; distinct by (initial collection, programs, schedule)")
+RULE = ("case = (initial collection: chunk sizes, programs of 2 or 3 actors out of fetch k | pack | packc | read, options "
+        "fine = extra read/plan/write-group gates, sources = which actors fetch the same revisions, one complete "
+        "schedule = the sequence of baton choices); all schedules of the exhaustive 2-actor program pairs are enumerated, "
+        "the others are sampled; non-trivial = at least two decision points had an alternative; distinct by (initial "
+        "collection, programs, options, schedule)")
 ASSUMPTIONS = [
-    "interleaving granularity is the phase (reload, finish, save, obsolete); _save_pack_names up to the unlock is atomic "
-    "because it runs under the names lock (LockDir, property C26)",
-    "pack names of different processes' new packs differ (content hashes of different content); identical concurrent "
-    "fetches are outside the model",
+    "interleaving granularity of the real runs is the phase (reload, finish, save, obsolete, clear) plus the read / "
+    "plan / write-group gates; read + merge + put_file of _save_pack_names is atomic because it runs under the names "
+    "lock (LockDir, property C26); the deletes of _clear_obsolete_packs and the renames of _obsolete_packs are "
+    "interleaved one by one in the model only (theorems fine_*)",
+    "the positive theorems assume that packs written by different processes get different names (different content); "
+    "byte-identical packs written twice are covered by the witness theorems, the T2 comparison and the oracle "
+    "(finding same-pack-name-relisted-while-obsoleted)",
 ]
 TRUSTED = [
     "threads of one process stand for separate processes (each has its own Repository object, transports and pack "
@@ -93,6 +130,9 @@ class World:
         self.pending = None          # an action whose post-state has not been captured yet
         self.names_seen = {}
         self.aborted = False
+        self.fine = False            # extra gates: before a packer reads its sources, after a reader's /
+        #                              a write group's lock (so that reload-and-retry really happens)
+        self.events = []             # retry:* / reload:* / already-obsolete (evidence counters)
 
     # ---- state capture ---------------------------------------------------
     def disk_names(self):
@@ -108,7 +148,8 @@ class World:
         procs = []
         for a in self.actors:
             pc = a.repo._pack_collection if a.repo is not None else None
-            if pc is None or pc._names is None:
+            if pc is None or pc._names is None or (a.gate == "read-names" and not pc._names and not pc._packs_at_load):
+                # (an actor waiting inside ensure_loaded has an empty dict already: not loaded yet)
                 procs.append((False, [], []))
             else:
                 procs.append((True, sorted(pc._names.keys()), sorted(n for (n, _v) in (pc._packs_at_load or ()))))
@@ -137,6 +178,7 @@ class Actor(threading.Thread):
         self.results = []            # per command
         self.upto = -1
         self.packer = None
+        self.in_reload = 0
         self.in_save = False
         self.save_logged = False
         self.committed_revs = []     # revisions of completed fetches
@@ -146,8 +188,8 @@ class Actor(threading.Thread):
     def wait_turn(self, kind):
         w = self.world
         with w.cv:
+            self.gate = kind         # (before the capture: an actor waiting inside ensure_loaded is not loaded yet)
             w.flush()
-            self.gate = kind
             w.running = None
             w.cv.notify_all()
             while w.running is not self and not w.aborted:
@@ -196,12 +238,22 @@ class Actor(threading.Thread):
         elif cmd[0] == "pack":
             self.repo.pack()
             self.results.append(("pack",))
+        elif cmd[0] == "packc":
+            self.repo.pack(clean_obsolete_packs=True)
+            self.results.append(("packc",))
         elif cmd[0] == "read":
             must = set(w.committed_now())
             with self.repo.lock_read():
+                if w.fine:
+                    # the reader holds its (soon stale) list; others may now pack and obsolete what it lists
+                    self.wait_turn("read")
                 ids = sorted(self.repo.all_revision_ids())
+                if w.fine:
+                    self.wait_turn("read2")
                 dg = c04.digest_all(self.repo, ids)
             self.results.append(("read", ids, sorted(must), dg))
+        else:
+            raise ValueError("unknown command %r" % (cmd,))
 
 
 def _world_committed_now(self):
@@ -218,6 +270,8 @@ World.committed_now = _world_committed_now
 # gates: wrappers around the phase boundaries of the real code
 
 _installed = False
+_free_reloads = [0]
+MAX_FREE_RELOADS = 200
 
 
 def _actor_of(coll):
@@ -227,6 +281,11 @@ def _actor_of(coll):
     if a is None or a.repo is None or coll is not a.repo._pack_collection:
         return None
     return a
+
+
+def _names_lock_held(coll):
+    """this process holds the names mutex (control_files write-locked; a reader's lock_read only counts)"""
+    return getattr(coll.repo.control_files, "_lock_mode", None) == "w"
 
 
 def install():
@@ -241,11 +300,75 @@ def install():
     def reload_pack_names(self):
         a = _actor_of(self)
         if a is None:
+            # the oracle's own reads (fresh Repository.open at the end of a schedule): a read that keeps
+            # reloading for ever is a livelock of the real code, reported as such instead of hanging the run
+            _free_reloads[0] += 1
+            if _free_reloads[0] > MAX_FREE_RELOADS:
+                raise RuntimeError("livelock: reload_pack_names called more than %d times by one read" % MAX_FREE_RELOADS)
             return o_reload(self)
-        a.wait_turn("reload")
-        a.world.log(a, "r")
-        return o_reload(self)
+        caller = sys._getframe(1).f_code.co_name
+        a.world.events.append("reload:" + {"_refresh_data": "at-lock", "_restart_autopack": "packer-retry",
+                                           "_restart_pack_operations": "packer-retry"}.get(caller, "on-missing-pack"))
+        # the gate and the action `r` are at the disk read inside (see _iter_disk_pack_index below)
+        a.in_reload += 1
+        try:
+            return o_reload(self)
+        finally:
+            a.in_reload -= 1
     RPC.reload_pack_names = reload_pack_names
+
+    # Every read of pack-names that is NOT protected by the names lock is a point where the others may
+    # run (what is read may be stale by the time it is used).  In the code as it is those are the reads of
+    # ensure_loaded / reload_pack_names (the phase `reload`: the process' memory is synchronised with what
+    # was read); the read of _save_pack_names happens under the lock and is not a gate.
+    o_iter = RPC._iter_disk_pack_index
+
+    def _iter_disk_pack_index(self):
+        a = _actor_of(self)
+        if a is None or _names_lock_held(self):
+            return o_iter(self)
+        a.wait_turn("read-names")
+        if not a.in_save:
+            a.world.log(a, "r")
+        return list(o_iter(self))
+    RPC._iter_disk_pack_index = _iter_disk_pack_index
+
+    # ... and the names lock is taken when the harness says so: whatever _save_pack_names did before
+    # (nothing, in the code as it is) is separated from what it does under the lock
+    o_lock = RPC.lock_names
+
+    def lock_names(self):
+        a = _actor_of(self)
+        if a is not None:
+            a.wait_turn("save" if a.in_save else "lock")
+        return o_lock(self)
+    RPC.lock_names = lock_names
+
+    def count_retry(name, exc_name, label):
+        orig = getattr(RPC, name)
+
+        def restart(self):
+            a = _actor_of(self)
+            try:
+                return orig(self)
+            except BaseException as e:
+                if a is not None:
+                    a.world.events.append("retry:%s%s" % (label, "" if type(e).__name__ == exc_name else "-unhelped"))
+                raise
+        setattr(RPC, name, restart)
+    count_retry("_restart_autopack", "RetryAutopack", "autopack")
+    count_retry("_restart_pack_operations", "RetryPackOperations", "pack")
+
+    o_swg = RPC._start_write_group
+
+    def _start_write_group(self):
+        a = _actor_of(self)
+        if a is not None and a.world.fine:
+            # the write group's process holds its list; what it reads from now on (basis inventories,
+            # _check_new_inventories) may have been packed away by others
+            a.wait_turn("wg")
+        return o_swg(self)
+    RPC._start_write_group = _start_write_group
 
     o_finish = groupcompress_repo.GCPack.finish
 
@@ -261,14 +384,16 @@ def install():
 
     def allocate(self, a_new_pack):
         a = _actor_of(self)
-        r = o_allocate(self, a_new_pack)
-        if a is not None:
-            if a.packer is not None:
-                a.world.log(a, "k", (a_new_pack.name, [p.name for p in a.packer.packs]))
-            else:
+        try:
+            return o_allocate(self, a_new_pack)
+        finally:
+            # logged also when allocate raises "Pack ... already exists": the files are written by then
+            if a is not None:
                 revs = sorted(k[0] for (_i, k, _v, _r) in a_new_pack.revision_index.iter_all_entries())
-                a.world.log(a, "f", (a_new_pack.name, revs))
-        return r
+                if a.packer is not None:
+                    a.world.log(a, "k", (a_new_pack.name, [p.name for p in a.packer.packs], revs))
+                else:
+                    a.world.log(a, "f", (a_new_pack.name, revs))
     RPC.allocate = allocate
 
     o_pack = pack_repo.Packer.pack
@@ -279,10 +404,30 @@ def install():
             return o_pack(self, pb)
         a.packer = self
         try:
+            if a.world.fine:
+                # the plan is made (self.packs); the sources are read after this point
+                a.wait_turn("plan")
             return o_pack(self, pb)
         finally:
             a.packer = None
     pack_repo.Packer.pack = pack
+
+    o_clear = RPC._clear_obsolete_packs
+
+    def _clear_obsolete_packs(self, preserve=None):
+        a = _actor_of(self)
+        if a is None:
+            return o_clear(self, preserve)
+        if a.in_save:
+            found = o_clear(self, preserve)
+            if preserve and set(found) & set(preserve):
+                a.world.events.append("already-obsolete")
+            return found
+        # the final cleanup of pack(clean_obsolete_packs=True)
+        a.wait_turn("clear")
+        a.world.log(a, "c")
+        return o_clear(self, preserve)
+    RPC._clear_obsolete_packs = _clear_obsolete_packs
 
     o_save = RPC._save_pack_names
 
@@ -290,7 +435,7 @@ def install():
         a = _actor_of(self)
         if a is None:
             return o_save(self, clear_obsolete_packs, obsolete_packs)
-        a.wait_turn("save")
+        # (the gate is at lock_names inside)
         a.in_save, a.save_logged, a.save_clear = True, False, bool(clear_obsolete_packs)
         try:
             r = o_save(self, clear_obsolete_packs, obsolete_packs)
@@ -311,7 +456,10 @@ def install():
         if a.in_save and not a.save_logged:
             a.world.log(a, "s", a.save_clear)
             a.save_logged = True
-        a.wait_turn("obsolete")
+        if not _names_lock_held(self):
+            # (a variant of the code that obsoletes while it still holds the names lock cannot be
+            # interleaved here: the others would wait for the lock)
+            a.wait_turn("obsolete")
         a.world.log(a, "o")
         return o_obs(self, packs)
     RPC._obsolete_packs = _obsolete_packs
@@ -369,25 +517,38 @@ def base_repo(chunks):
     return _bases[key]
 
 
-def run_schedule(case, choices, timeout=60):
-    """execute `case` (chunks, programs) following the baton choices; when the choices are used up the
-    lowest runnable actor is taken.  Returns a dict with the decision trace and everything observed."""
+MAX_DECISIONS = 400     # no program of the check needs more than ~60 baton passes
+
+
+class Stalled(Exception):
+    """a thread did not reach its next gate within the wall-clock limit: infrastructure, not a verdict"""
+
+
+def run_schedule(case, choices, timeout=300):
+    """execute `case` (chunks, programs[, fine, sources]) following the baton choices; when the choices
+    are used up the lowest runnable actor is taken.  Returns a dict with the decision trace and everything
+    observed.  A schedule that needs more than MAX_DECISIONS baton passes is a livelock of the real code
+    (`livelock`); a thread that does not come back within `timeout` seconds of wall time raises Stalled."""
     install()
+    _free_reloads[0] = 0
     chunks, programs = case["chunks"], case["programs"]
+    sources = case.get("sources") or list(range(len(programs)))
     base, init_revs = base_repo(chunks)
     path = env.fresh_dir("c05w")
     os.rmdir(path)
     shutil.copytree(base, path)
     w = World(path, len(programs))
+    w.fine = bool(case.get("fine"))
     w.initial_revs = list(init_revs)
     for i, prog in enumerate(programs):
-        w.actors.append(Actor(w, i, prog, actor_source(i)))
+        w.actors.append(Actor(w, i, prog, actor_source(sources[i])))
     init_state = w.capture()
     for a in w.actors:
         a.start()
     decisions = []      # (chosen, runnable list)
     k = 0
     ok = True
+    livelock = False
     with w.cv:
         while True:
             # wait until nobody runs
@@ -400,6 +561,9 @@ def run_schedule(case, choices, timeout=60):
             runnable = [a.idx for a in w.actors if a.gate not in (None, "done")]
             if not runnable:
                 break
+            if k >= MAX_DECISIONS:
+                livelock = True
+                break
             if k < len(choices) and choices[k] in runnable:
                 ch = choices[k]
             else:
@@ -408,12 +572,16 @@ def run_schedule(case, choices, timeout=60):
             k += 1
             w.running = w.actors[ch]
             w.cv.notify_all()
-        if not ok:
+        if not ok or livelock:
             w.aborted = True
             w.cv.notify_all()
     for a in w.actors:
-        a.join(5)
-    res = dict(case=case, decisions=decisions, hung=not ok,
+        a.join(5 if not ok else timeout)
+    if not ok:
+        shutil.rmtree(path, ignore_errors=True)
+        raise Stalled("no actor reached a gate within %d s of wall time (case %r, decisions %r)"
+                      % (timeout, {k_: v for k_, v in case.items() if k_ != "_content"}, [d[0] for d in decisions]))
+    res = dict(case=case, decisions=decisions, hung=livelock, events=list(w.events),
                errors=[(a.idx, a.error) for a in w.actors if a.error],
                actions=w.actions, states=w.states, init_state=init_state,
                results=[a.results for a in w.actors], steps=[a.steps for a in w.actors])
@@ -423,6 +591,7 @@ def run_schedule(case, choices, timeout=60):
     for a in w.actors:
         expected |= set(a.committed_revs)
         truth.update(a.src["truth"])
+    _free_reloads[0] = 0
     fin = c04.inspect(path, truth)
     res["final"] = dict(revs=fin["revs"], problems=fin["problems"], names=fin["names"])
     res["expected"] = sorted(expected)
@@ -458,29 +627,46 @@ def model_io(res):
         if r not in revnum:
             revnum[r] = len(revnum)
         return revnum[r]
+
+    def dots(nums):
+        return ".".join(str(x) for x in nums) or "-"
     # content of the initial packs: read from the base repository
     content = res["case"].get("_content") or {}
+    cont = ";".join("%d:%s" % (num[n], ".".join(str(rn(r)) for r in revs))
+                    for n, revs in sorted(content.items()) if n in num) or "-"
     sched = []
+    written = []
     k = 0
-    allocated = [a[2][0] for a in res["actions"] if a[1] in ("f", "k")]
-    res["same_name_twice"] = len(set(allocated)) != len(allocated) or any(n in num for n in allocated)
+    dup = set()
     for (idx, kind, arg) in res["actions"]:
         if kind == "r":
             sched.append("%d:r" % idx)
-        elif kind == "f":
-            name, revs = arg
-            num[name] = nxt + 2 * k + 1
+        elif kind in ("f", "k"):
+            name = arg[0]
+            revs = arg[-1]
+            if kind == "f":
+                body = dots(rn(r) for r in revs)
+            else:
+                body = dots(num.get(s, 9999) for s in arg[1])
+            if name in num:
+                # a pack with this content hash exists already (written by another process, or listed):
+                # the model is told the name (content-addressed names, `finishAs` / `repackAs`)
+                dup.add(name)
+                sched.append("%d:%sa:%d:%s" % (idx, kind, num[name], body))
+            else:
+                num[name] = nxt + 2 * k + 1
+                sched.append("%d:%s:%s" % (idx, kind, body))
             k += 1
-            sched.append("%d:f:%s" % (idx, ".".join(str(rn(r)) for r in revs) or "-"))
-        elif kind == "k":
-            name, sel = arg
-            num[name] = nxt + 2 * k + 1
-            k += 1
-            sched.append("%d:k:%s" % (idx, ".".join(str(num.get(s, 9999)) for s in sel) or "-"))
+            # what the real new pack's revision index lists (for a packer: the union of its sources?)
+            written.append("%d=%s" % (num[name], ",".join(map(str, sorted(set(rn(r) for r in revs)))) or "-"))
         elif kind == "s":
             sched.append("%d:s:%s" % (idx, "T" if arg else "F"))
         elif kind == "o":
             sched.append("%d:o" % idx)
+        elif kind == "c":
+            sched.append("%d:c" % idx)
+    res["same_name_twice"] = bool(dup)
+    res["dup_names"] = sorted(dup)
 
     def tok(e):
         ch, st, ex = e
@@ -496,17 +682,21 @@ def model_io(res):
                                 ",".join(map(str, sorted(num.get(n, 9996) for n in al))) or "-")
         return s
     files0 = ",".join(sorted(tok(e) for e in lst0)) or "-"
-    cont = ";".join("%d:%s" % (num[n], ".".join(str(rn(r)) for r in revs))
-                    for n, revs in sorted(content.items()) if n in num) or "-"
     line = "exec T %s %s %s %d %d %s" % (",".join(map(str, sorted(num[n] for n in names0))) or "-", files0, cont,
                                          nxt, len(res["case"]["programs"]), ";".join(sched) or "-")
-    impl = "/".join(fmt_state(s) for s in [res["init_state"]] + res["states"])
+    fin = res.get("final") or {}
+    if fin.get("revs") is None:
+        vis = "?"
+    else:
+        vis = ",".join(map(str, sorted(set(rn(r) for r in fin["revs"])))) or "-"
+    impl = "%s %s %s" % ("/".join(fmt_state(s) for s in [res["init_state"]] + res["states"]),
+                         ";".join(written) or "-", vis)
     return line, impl
 
 
 def canon_model_reply(m, nprocs):
     """drop what is not observable on the real side: upload files, torn list, lock flag, toObsolete"""
-    states, _, _vis = m.rpartition(" ")
+    states, written, vis = m.split(" ")
     out = []
     for st in states.split("/"):
         parts = st.split("#")
@@ -517,13 +707,14 @@ def canon_model_reply(m, nprocs):
             f = p.split("~")
             s += "#%s~%s~%s" % (f[0] if f[1] != "-" or f[2] != "-" or f[0] == "L" else "N", f[1], f[2])
         out.append(s)
-    return "/".join(out)
+    return "%s %s %s" % ("/".join(out), written, vis)
 
 
 def pack_content(chunks):
     """{pack name: [revision ids]} of the base repository"""
     from breezy.repository import Repository
     base, _revs = base_repo(chunks)
+    _free_reloads[0] = 0
     r = Repository.open(base)
     out = {}
     with r.lock_read():
@@ -580,6 +771,28 @@ def sample(case, n, seed):
     return results, False
 
 
+def case_key(case):
+    """the JSON-able canonical form of a case (what is counted, recorded and replayed)"""
+    out = dict(chunks=list(case["chunks"]), programs=[[list(x) for x in prog] for prog in case["programs"]])
+    if case.get("fine"):
+        out["fine"] = True
+    if case.get("sources"):
+        out["sources"] = list(case["sources"])
+    return out
+
+
+def slim_result(case, r):
+    line, impl = model_io(r)
+    return dict(case=case_key(case),
+                schedule=[d[0] for d in r["decisions"]], branching=sum(1 for d in r["decisions"] if len(d[1]) > 1),
+                hung=r["hung"], errors=r["errors"], final=r["final"], expected=r["expected"],
+                missing_files=r["missing_files"], line=line, impl=impl, events=r["events"],
+                reads=[(i, c[1], c[2], [k.decode() for k, v in c[3].items()])
+                       for i, rs in enumerate(r["results"]) for c in rs if c[0] == "read"],
+                nactions=len(r["actions"]), kinds="".join(a[1] for a in r["actions"]),
+                same_name_twice=r["same_name_twice"], dup_names=r["dup_names"])
+
+
 def explore_task(task):
     case, limit, root = task
     env.boot()
@@ -587,136 +800,253 @@ def explore_task(task):
         case = dict(case, _content=pack_content(case["chunks"]))
         if isinstance(root, tuple) and root and root[0] == "sample":
             results, complete = sample(case, limit, root[1])
+        elif isinstance(root, tuple) and root and root[0] == "one":
+            results, complete = [run_schedule(case, list(root[1]))], True
         else:
             results, complete = explore(case, limit, root)
-        slim = []
-        for r in results:
-            line, impl = model_io(r)
-            slim.append(dict(case=dict(chunks=case["chunks"], programs=case["programs"]),
-                             schedule=[d[0] for d in r["decisions"]], branching=sum(1 for d in r["decisions"] if len(d[1]) > 1),
-                             hung=r["hung"], errors=r["errors"], final=r["final"], expected=r["expected"],
-                             missing_files=r["missing_files"], line=line, impl=impl,
-                             reads=[(i, c[1], c[2], [k.decode() for k, v in c[3].items()])
-                                    for i, rs in enumerate(r["results"]) for c in rs if c[0] == "read"],
-                             nactions=len(r["actions"]), kinds="".join(a[1] for a in r["actions"]),
-                             same_name_twice=r["same_name_twice"]))
-        return dict(results=slim, complete=complete, error=None)
+        return dict(results=[slim_result(case, r) for r in results], complete=complete, error=None)
+    except Stalled as e:
+        return dict(results=[], complete=False, error="STALLED: %s" % e)
     except Exception as e:
         import traceback
         return dict(results=[], complete=False, error="%s: %s\n%s" % (type(e).__name__, e, traceback.format_exc()[-1200:]))
 
 
-# (chunks of the initial collection, programs)
+# (chunks of the initial collection, programs[, options])
 PAIRS = [          # every schedule is enumerated in both tiers
     ([2, 1], [[("fetch", 1)], [("fetch", 1)]]),
     ([2, 1], [[("fetch", 1)], [("pack",)]]),
     ([2, 1], [[("pack",)], [("read",)]]),
     ([1, 1], [[("fetch", 2)], [("read",), ("read",)]]),
+    # with the additional gates (see below): every way a reader with a stale list and a packer can interleave
+    ([2, 1], [[("pack",)], [("read",)]], dict(fine=True)),
 ]
 BIG_PAIRS = [      # sampled in the quick tier, enumerated in the thorough tier
-    ([1, 1, 1], [[("pack",)], [("pack",)]]),                         # mostly the excluded same-name input
+    ([1, 1, 1], [[("pack",)], [("pack",)]]),                         # two packers writing the same pack name
     ([3, 1, 1, 1, 1, 1, 1], [[("fetch", 1)], [("fetch", 1)]]),      # 9 revisions in 7 packs: the 10th triggers autopack
     ([3, 1, 1, 1, 1, 1, 1], [[("fetch", 1)], [("pack",)]]),
     ([2, 1], [[("fetch", 1), ("pack",)], [("fetch", 1)]]),
+    # pack(clean_obsolete_packs=True): the final _clear_obsolete_packs() against a packer and a writer
+    ([2, 1], [[("packc",)], [("fetch", 1), ("pack",)]]),
+    # `fine`: additional gates before a packer reads its sources, after a reader's lock and between its
+    # listing and its reads, at the start of a write group: stale plans and stale readers (RetryPackOperations,
+    # RetryAutopack, reload on a missing pack)
+    ([1, 1, 1], [[("pack",)], [("pack",)]], dict(fine=True)),
+    ([2, 1], [[("pack",)], [("fetch", 1), ("pack",)]], dict(fine=True)),
+    ([3, 1, 1, 1, 1, 1, 1], [[("fetch", 1)], [("pack",)]], dict(fine=True)),
+    ([2, 1], [[("fetch", 1), ("fetch", 1)], [("packc",)]], dict(fine=True)),
+    # `sources`: both actors fetch the SAME revisions (two pushes of one branch): byte-identical packs,
+    # one content-hash name written by two processes
+    ([2, 1], [[("fetch", 1)], [("fetch", 1)]], dict(sources=[0, 0])),
+    ([2, 1], [[("fetch", 1), ("pack",)], [("fetch", 1)]], dict(sources=[0, 0])),
 ]
 TRIPLES = [
     ([2, 1], [[("fetch", 1)], [("pack",)], [("read",)]]),
     ([1, 1, 1], [[("pack",)], [("pack",)], [("fetch", 1)]]),
     ([3, 1, 1, 1, 1, 1, 1], [[("fetch", 1)], [("fetch", 1)], [("pack",)]]),
+    ([2, 1], [[("fetch", 1)], [("pack",)], [("read",)]], dict(fine=True)),
+    ([2, 1], [[("fetch", 1), ("pack",)], [("fetch", 1)], [("read",)]], dict(sources=[0, 0, 2], fine=True)),
 ]
 
 
+DIRECTED = [       # one fixed schedule each, run in both tiers: the stale party waits at its extra gate while the
+    #                other actor packs and obsoletes everything, then continues (expected event in the evidence)
+    (([1, 1, 1], [[("pack",)], [("pack",)]], dict(fine=True)), [0, 0] + [1] * 12, "retry:pack"),
+    (([3, 1, 1, 1, 1, 1, 1], [[("fetch", 1)], [("pack",)]], dict(fine=True)), [0, 0, 0, 0] + [1] * 12, "retry:autopack"),
+    (([2, 1], [[("fetch", 1), ("fetch", 1)], [("packc",)]], dict(fine=True)), [0] * 6 + [1] * 12, "reload:on-missing-pack"),
+    (([2, 1], [[("pack",)], [("read",)]], dict(fine=True)), [1, 1] + [0] * 12, "reload:on-missing-pack"),
+    (([2, 1], [[("pack",)], [("read",)]], dict(fine=True)), [1, 1, 1] + [0] * 12, "reload:on-missing-pack"),
+]
+
+
+def mk_case(entry):
+    c, p = entry[0], entry[1]
+    out = dict(chunks=list(c), programs=[[list(x) for x in prog] for prog in p])
+    if len(entry) > 2:
+        out.update(entry[2])
+    return out
+
+
+def _txt(x):
+    return x.decode() if isinstance(x, bytes) else x
+
+
+def classify(r, what):
+    """family of a violation, computed from the concrete failing schedule: the only classified family is
+    `same-pack-name-relisted-while-obsoleted` = a pack name (content hash) was written by two processes
+    (or written again while listed) in this schedule AND every complaint of the oracle is about the
+    files of exactly such a name being absent"""
+    dup = set(r.get("dup_names") or [])
+    if not dup:
+        return None
+    stems = {m.split(".")[0] for m in r["missing_files"]}
+    if stems and not stems <= dup:
+        return None
+    blob = " ".join([what] + [e or "" for (_i, e) in r["errors"]] + list(r["final"]["problems"] or []))
+    if "NoSuchFile" not in blob and not stems:
+        return None
+    import re
+    mentioned = set(re.findall(r"[0-9a-f]{32}", blob))
+    if not mentioned and not stems:
+        return None
+    if not mentioned <= dup:
+        return None
+    if any(k in blob for k in ("no longer listed", "never committed", "did not see", "livelock")):
+        return None
+    return "same-pack-name-relisted-while-obsoleted"
+
+
 def judge(ctx, r):
-    case = dict(chunks=r["case"]["chunks"], programs=r["case"]["programs"], schedule=r["schedule"])
+    case = dict(r["case"], schedule=r["schedule"])
     ctx.case(case, nontrivial=r["branching"] >= 2)
     ctx.count("actions:%d" % (5 * (r["nactions"] // 5)))
     for ch in set(r["kinds"]):
-        ctx.count("phase:" + dict(r="reload", f="finish", k="repack", s="save", o="obsolete").get(ch, ch), r["kinds"].count(ch))
+        ctx.count("phase:" + dict(r="reload", f="finish", k="repack", s="save", o="obsolete", c="clear-all").get(ch, ch),
+                  r["kinds"].count(ch))
+    for ev in r["events"]:
+        ctx.count(ev)
+    if r["same_name_twice"]:
+        ctx.count("same-pack-name-written-twice")
+
+    def viol(what):
+        ctx.violation(case, what, family=classify(r, what))
     if r["hung"]:
-        ctx.violation(case, "the schedule did not terminate (an actor is stuck)")
+        viol("livelock: the schedule needs more than %d phases (an actor retries for ever)" % MAX_DECISIONS)
     for (i, e) in r["errors"]:
-        ctx.violation(case, "operation of actor %d failed: %s" % (i, e))
+        viol("operation of actor %d failed: %s" % (i, e))
     fin = r["final"]
     if fin["revs"] is None:
-        ctx.violation(case, "final repository cannot be opened: %s" % "; ".join(fin["problems"][:2]))
+        viol("final repository cannot be opened: %s" % "; ".join(fin["problems"][:2]))
     else:
-        exp = [e.decode() if isinstance(e, bytes) else e for e in r["expected"]]
-        got = [e.decode() if isinstance(e, bytes) else e for e in fin["revs"]]
+        exp = [_txt(e) for e in r["expected"]]
+        got = [_txt(e) for e in fin["revs"]]
         lost = sorted(set(exp) - set(got))
         extra = sorted(set(got) - set(exp))
         if lost and not r["errors"]:
-            ctx.violation(case, "committed revisions are no longer listed: %s" % ",".join(lost[:4]))
+            viol("committed revisions are no longer listed: %s" % ",".join(lost[:4]))
         if extra and not r["errors"]:
-            ctx.violation(case, "revisions listed that no completed write group committed: %s" % ",".join(extra[:4]))
+            viol("revisions listed that no completed write group committed: %s" % ",".join(extra[:4]))
         if fin["problems"]:
-            ctx.violation(case, "final repository: %s" % "; ".join(fin["problems"][:3]))
+            viol("final repository: %s" % "; ".join(fin["problems"][:3]))
     if r["missing_files"]:
-        ctx.violation(case, "listed packs without their files: %s" % ",".join(r["missing_files"][:4]))
+        viol("listed packs without their files: %s" % ",".join(r["missing_files"][:4]))
     for (i, ids, must, read_ok) in r["reads"]:
-        ids_s = {x.decode() if isinstance(x, bytes) else x for x in ids}
-        must_s = {x.decode() if isinstance(x, bytes) else x for x in must}
+        ids_s = {_txt(x) for x in ids}
+        must_s = {_txt(x) for x in must}
         if not must_s <= ids_s:
-            ctx.violation(case, "reader %d did not see committed revisions %s" % (i, ",".join(sorted(must_s - ids_s)[:4])))
+            viol("reader %d did not see committed revisions %s" % (i, ",".join(sorted(must_s - ids_s)[:4])))
         if set(read_ok) != ids_s:
-            ctx.violation(case, "reader %d could not read every listed revision" % i)
+            viol("reader %d could not read every listed revision" % i)
+
+
+def compare(ctx, case, line, impl, m):
+    ctx.traces += 1
+    if m == "bad-op":
+        ctx.mismatch(case, impl[:300], m, line=line[:600])
+        return
+    mm = canon_model_reply(m, len(case["programs"]))
+    si, wi, vi = impl.split(" ")
+    sm, wm, vm = mm.split(" ")
+    if vi == "?":
+        vm = "?"         # the final repository could not be listed (reported by the oracle)
+    if si != sm:
+        a, b = si.split("/"), sm.split("/")
+        j = next((k for k in range(max(len(a), len(b))) if k >= len(a) or k >= len(b) or a[k] != b[k]), 0)
+        ctx.mismatch(case, "after action %d: impl=%s" % (j, a[j] if j < len(a) else None),
+                     "model=%s" % (b[j] if j < len(b) else None), line=line[:600])
+    elif wi != wm:
+        ctx.mismatch(case, "revisions of the packs written: impl=%s" % wi, "model=%s" % wm, line=line[:600])
+    elif vi != vm:
+        ctx.mismatch(case, "visible at the end: impl=%s" % vi, "model=%s" % vm, line=line[:600])
+    return si == sm and wi == wm and vi == vm
 
 
 def run(ctx, limit=None):
     install()
-    lim_big = limit or ctx.pick(44, 2000)
-    lim3 = limit or ctx.pick(10, 300)
-    for i in (0, 1, 2, 99):
-        actor_source(i)
-    for (chunks, _p) in PAIRS + BIG_PAIRS + TRIPLES:
-        base_repo(chunks)
-
-    def mk(c, p):
-        return dict(chunks=c, programs=[[list(x) for x in prog] for prog in p])
+    lim_big = limit or ctx.pick(20, 600)
+    lim3 = limit or ctx.pick(8, 300)
+    try:
+        for i in (0, 1, 2, 99):
+            actor_source(i)
+        for e in PAIRS + BIG_PAIRS + TRIPLES:
+            base_repo(e[0])
+    except Exception as e:
+        from breezy import errors as _errors
+        if not isinstance(e, _errors.BzrError):
+            raise
+        # single-process commits / fetches (with their autopacks) of the preparation already fail or lose data
+        import traceback
+        ctx.violation(dict(preparation="14 commits per source history, base history fetched in chunks"),
+                      "building the histories failed: %s: %s | %s" % (
+                          type(e).__name__, str(e)[:200],
+                          " <- ".join(l.strip().split("\n")[0][-60:] for l in traceback.format_tb(e.__traceback__)[-4:])))
+        return
     tasks = []
-    for (c, p) in PAIRS:
-        tasks += [(mk(c, p), 100000, [0], "all"), (mk(c, p), 100000, [1], "all")]
-    for j, (c, p) in enumerate(BIG_PAIRS):
+    # minimised past failures first
+    cdir = os.path.join(env.VERIF, "corpus", "C05")
+    for fn in sorted(os.listdir(cdir)) if os.path.isdir(cdir) else []:
+        if fn.endswith(".json"):
+            import json
+            cc = json.load(open(os.path.join(cdir, fn)))["case"]
+            e = (cc["chunks"], cc["programs"], {k: cc[k] for k in ("fine", "sources") if cc.get(k)})
+            base_repo(e[0])
+            tasks.append((mk_case(e), 1, ("one", tuple(cc["schedule"])), "corpus"))
+    for (e, sched, _ev) in DIRECTED:
+        base_repo(e[0])
+        tasks.append((mk_case(e), 1, ("one", tuple(sched)), "directed"))
+    for e in PAIRS:
+        tasks += [(mk_case(e), 100000, [0], "all"), (mk_case(e), 100000, [1], "all")]
+    for j, e in enumerate(BIG_PAIRS):
         if ctx.tier == "thorough" and limit is None:
-            tasks += [(mk(c, p), lim_big // 2, [0], "big"), (mk(c, p), lim_big // 2, [1], "big")]
+            tasks += [(mk_case(e), lim_big // 2, [0], "big"), (mk_case(e), lim_big // 2, [1], "big"),
+                      (mk_case(e), 60, ("sample", (ctx.seed, j, 0)), "big")]
         else:
-            tasks += [(mk(c, p), lim_big // 2, ("sample", (ctx.seed, j, h)), "big") for h in (0, 1)]
-    for j, (c, p) in enumerate(TRIPLES):
-        tasks += [(mk(c, p), lim3, ("sample", (ctx.seed, "t", j)), "3")]
+            tasks += [(mk_case(e), lim_big, ("sample", (ctx.seed, j, 0)), "big")]
+    for j, e in enumerate(TRIPLES):
+        tasks += [(mk_case(e), lim3, ("sample", (ctx.seed, "t", j)), "3")]
+    # the long tasks first (the pool hands them out one at a time)
+    order = sorted(range(len(tasks)), key=lambda i: 0 if tasks[i][3] == "all" else 1)
+    tasks = [tasks[i] for i in order]
     outs = ctx.pmap(explore_task, [t[:3] for t in tasks], chunksize=1)
     complete = True
     cases, lines, impls = [], [], []
+    failed = []
     for (task, out) in zip(tasks, outs):
         if out["error"]:
-            ctx.count("task-error")
-            ctx.extra.setdefault("task_errors", []).append(out["error"][:400])
-            complete = False
+            failed.append(out["error"])
             continue
         if task[3] == "all" and not out["complete"]:
             complete = False
-        ctx.count("schedules:%s" % dict(all="2-actors-exhaustive", big="2-actors-long", **{"3": "3-actors"})[task[3]],
-                  len(out["results"]))
+        kind = dict(all="2-actors-exhaustive", big="2-actors-long", corpus="corpus", directed="directed",
+                    **{"3": "3-actors"})[task[3]]
+        if task[3] == "directed":
+            want = next(ev for (e, sc, ev) in DIRECTED if mk_case(e) == task[0] and tuple(sc) == task[2][1])
+            got = [ev for r in out["results"] for ev in r["events"]]
+            ctx.extra.setdefault("directed", []).append(dict(case=task[0], schedule=list(task[2][1]), expected_event=want,
+                                                             happened=want in got))
+            if want not in got:
+                ctx.count("directed-schedule-without-its-event")
+        ctx.count("schedules:%s" % kind, len(out["results"]))
+        if task[0].get("fine"):
+            ctx.count("schedules:with-read-and-plan-gates", len(out["results"]))
+        if task[0].get("sources"):
+            ctx.count("schedules:identical-fetches", len(out["results"]))
         for r in out["results"]:
             judge(ctx, r)
-            if r["same_name_twice"]:
-                # excluded input of the model (two processes wrote byte-identical packs, e.g. two packers
-                # combining the same packs: same content hash = same name); the oracle above still applies
-                ctx.count("excluded:same-pack-name-written-twice")
-                continue
-            cases.append(dict(chunks=r["case"]["chunks"], programs=r["case"]["programs"], schedule=r["schedule"]))
+            cases.append(dict(r["case"], schedule=r["schedule"]))
             lines.append(r["line"])
             impls.append(r["impl"])
+    # violations of no classified family first (the first one is what the verdict line shows)
+    ctx.violations.sort(key=lambda v: v["family"] is not None)
+    if failed:
+        # a worker crashed or a thread did not come back in time: no verdict from this run
+        raise env.InfraError("C05: %d schedule task(s) did not complete: %s" % (len(failed), failed[0][:600]))
     ctx.exhaustive = complete
-    ctx.extra["exhaustive_pairs"] = [dict(chunks=c, programs=p) for (c, p) in PAIRS]
+    ctx.extra["exhaustive_pairs"] = [mk_case(e) for e in PAIRS]
     if lines and ctx.model_available:
         outs = ctx.model(lines)
         for c, l, i, m in zip(cases, lines, impls, outs):
-            ctx.traces += 1
-            mm = canon_model_reply(m, len(c["programs"])) if m != "bad-op" else m
-            if i != mm:
-                a, b = i.split("/"), mm.split("/")
-                j = next((k for k in range(max(len(a), len(b))) if k >= len(a) or k >= len(b) or a[k] != b[k]), 0)
-                ctx.mismatch(c, "after action %d: impl=%s" % (j, a[j] if j < len(a) else None),
-                             "model=%s" % (b[j] if j < len(b) else None), line=l[:600])
+            compare(ctx, c, l, i, m)
 
 
 def widen(ctx):
@@ -727,19 +1057,13 @@ def replay(ctx, case):
     install()
     for i in (0, 1, 2, 99):
         actor_source(i)
-    c = dict(chunks=case["chunks"], programs=[[tuple(x) for x in p] for p in case["programs"]])
-    c["_content"] = pack_content(c["chunks"])
-    r = run_schedule(c, case.get("schedule", []))
-    line, impl = model_io(r)
-    slim = dict(case=dict(chunks=c["chunks"], programs=case["programs"]), schedule=[d[0] for d in r["decisions"]],
-                branching=2, hung=r["hung"], errors=r["errors"], final=r["final"], expected=r["expected"],
-                missing_files=r["missing_files"], line=line, impl=impl,
-                reads=[(i, cc[1], cc[2], [k.decode() for k, v in cc[3].items()])
-                       for i, rs in enumerate(r["results"]) for cc in rs if cc[0] == "read"],
-                nactions=len(r["actions"]), kinds="".join(a[1] for a in r["actions"]),
-                same_name_twice=r["same_name_twice"])
+    c = mk_case((case["chunks"], case["programs"], {k: case[k] for k in ("fine", "sources") if case.get(k)}))
+    full = dict(c, _content=pack_content(c["chunks"]))
+    r = run_schedule(full, case.get("schedule", []))
+    slim = slim_result(c, r)
+    slim["branching"] = 2
     judge(ctx, slim)
-    m = ctx.model([line])[0]
-    mm = canon_model_reply(m, len(c["programs"])) if m != "bad-op" else m
-    return dict(case=case, actions=[(a[0], a[1]) for a in r["actions"]], agree=(mm == impl),
-                oracle_failures=[v["what"] for v in ctx.violations], final=str(r["final"])[:400])
+    m = ctx.model([slim["line"]])[0]
+    agree = compare(ctx, dict(c, schedule=slim["schedule"]), slim["line"], slim["impl"], m)
+    return dict(case=case, actions=[(a[0], a[1]) for a in r["actions"]], agree=bool(agree), events=r["events"],
+                oracle_failures=[(v["what"], v["family"]) for v in ctx.violations], final=str(r["final"])[:400])
